@@ -15,6 +15,7 @@ const (
 	c15Garbage
 	c15Denied // EACCES on open
 	c15IOErr  // EIO on open (transient or not)
+	c15Blank  // a file with no YAML document in it (empty, or only a comment): loads as zero entries
 )
 
 func c15Entries(tag string, n int) []database.Command {
@@ -34,6 +35,12 @@ func c15Put(path string, state int, entries []database.Command, faultTimes int) 
 		verifFSMkdir(path)
 	case c15Garbage:
 		verifFSPutGarbage(path)
+	case c15Blank:
+		if verifBool("commentOnly") {
+			verifFSPutBytes(path, []byte("# nothing yet\n"))
+		} else {
+			verifFSPutBytes(path, nil)
+		}
 	case c15Denied:
 		verifFSPutDoc(path, "yaml", entries)
 		verifFSFaultRead(path, 13, faultTimes)
@@ -56,13 +63,20 @@ func c15RunF(mainStates, personalStates []int, maxAttemptsHi int, symbolicDelays
 	ps := personalStates[verifIntRange("personal", 0, len(personalStates)-1)]
 	mainEntries := c15Entries("m", verifIntRange("mainEntries", 0, 2))
 	persEntries := c15Entries("p", verifIntRange("personalEntries", 0, 1))
+	if ms == c15Blank {
+		mainEntries = nil
+	}
+	if ps == c15Blank {
+		persEntries = nil
+	}
 	attempts := verifIntRange("maxAttempts", 1, maxAttemptsHi)
 	// a fault may be transient: it hits the first `times` reads only
 	times := verifIntRange("faultTimes", 1, attempts)
 	c15Put(mainPath, ms, mainEntries, times)
 	c15Put(personalPath, ps, persEntries, times)
 	if verifBool("hasBackup") {
-		verifFSPutDoc(mainPath+".backup", "yaml", c15Entries("b", 1))
+		// a backup copy beside the main file: possibly empty, possibly stale
+		verifFSPutDoc(mainPath+".backup", "yaml", c15Entries("b", verifIntRange("backupEntries", 0, 1)))
 	}
 	cfg := RetryConfig{MaxAttempts: attempts, BaseDelay: 100 * time.Millisecond, MaxDelay: 5 * time.Second, BackoffFactor: 2.0}
 	if symbolicDelays {
@@ -91,18 +105,18 @@ func c15RunF(mainStates, personalStates []int, maxAttemptsHi int, symbolicDelays
 	}
 	// which attempt (if any) sees both files healthy?
 	mainHealthyAt := 0 // first attempt at which the main file reads and parses
-	if ms == c15OK {
+	if ms == c15OK || ms == c15Blank {
 		mainHealthyAt = 1
 	} else if (ms == c15IOErr) && times < attempts {
 		mainHealthyAt = times + 1 // transient I/O fault: retried and then fine
 	}
-	persFine := ps == c15OK || ps == c15Missing
+	persFine := ps == c15OK || ps == c15Missing || ps == c15Blank
 	if ps == c15IOErr || ps == c15Denied {
 		persFine = false
 	}
 	if mainHealthyAt > 0 && persFine {
 		want := append([]database.Command(nil), mainEntries...)
-		if ps == c15OK {
+		if ps == c15OK || ps == c15Blank {
 			want = append(want, persEntries...)
 		}
 		verifAssert(len(db.Commands) == len(want), "C15: the real database (main entries then notebook entries) is used whenever it loads")
@@ -114,6 +128,9 @@ func c15RunF(mainStates, personalStates []int, maxAttemptsHi int, symbolicDelays
 		verifReach("real")
 	} else if mainHealthyAt == 0 {
 		verifAssert(len(db.Commands) > 0, "C15: the built-in fallback is not empty")
+		for i := range db.Commands {
+			verifAssert(db.Commands[i].Command != c15Entries("b", 1)[0].Command, "C15: the fallback is the built-in set (not some other file's content)")
+		}
 		verifReach("fallback")
 	}
 	// the returned database is searchable
@@ -152,7 +169,7 @@ func c15RunF(mainStates, personalStates []int, maxAttemptsHi int, symbolicDelays
 }
 
 func VerifHarness_C15_Ladder() {
-	c15Run([]int{c15OK, c15Missing, c15Dir, c15Garbage, c15Denied, c15IOErr}, []int{c15OK, c15Missing, c15Garbage, c15Dir}, 3, false)
+	c15Run([]int{c15OK, c15Missing, c15Dir, c15Garbage, c15Denied, c15IOErr, c15Blank}, []int{c15OK, c15Missing, c15Garbage, c15Dir, c15Blank}, 3, false)
 }
 func VerifHarness_C15_LadderDelays() {
 	c15Run([]int{c15Garbage, c15IOErr, c15Dir}, []int{c15Missing}, 3, true)
